@@ -31,6 +31,7 @@ func main() {
 	out := flag.String("out", "", "output file")
 	points := flag.String("points", "", "comma-separated function names to add yield points to")
 	nogo := flag.Bool("nogo", false, "do not rewrite go statements")
+	nosync := flag.Bool("nosync", false, "do not redirect the sync and sync/atomic imports")
 	flag.Parse()
 	fset := token.NewFileSet()
 	f, err := parser.ParseFile(fset, *in, nil, parser.ParseComments)
@@ -44,6 +45,9 @@ func main() {
 	// 1. imports.
 	for _, imp := range f.Imports {
 		p, _ := strconv.Unquote(imp.Path.Value)
+		if *nosync {
+			break
+		}
 		switch p {
 		case "sync":
 			imp.Path.Value = strconv.Quote(base + "xsync")
